@@ -550,6 +550,8 @@ func c13Flags(c *Ctx) {
 // ---- C14 ------------------------------------------------------------------
 
 func runC14(c *Ctx) {
+	// the wildcard and the duplicate test work on the address: a zoned spelling must not slip past them
+	sharedRejections(c, "R-C14-6", "rdnss-zoned", "rdnss-wildcard-twice", "rdnss-duplicate")
 	listingErrors(c, "R-C14-5", [][3]string{{"internal/plugin", "RDNSS", "current"}, {"internal/plugin", "RDNSS", "Apply"}, {"internal/system", "addresser", "AddressesByIndex"}})
 	cur := c.needMethod("R-C14-1", "internal/plugin", "RDNSS", "current")
 	if cur == nil {
